@@ -388,6 +388,12 @@ def gen_c05(rng, sid0, thorough=False):
                                  mbap(4, 1, req_wmc(0, [True] * 1968)), mbap(5, 1, req_read(1, 0, 3))], None))
     # two short frames: every split offset
     streams.append(("two-frames", [mbap(7, 1, req_read(1, 0, 9)), mbap(8, 1, req_wsr(5, 0xBEEF))], None))
+    # the smallest header that is not malformed: length 1 (unit id only, an empty PDU) -- never answered, and the frames
+    # around it are delimited as usual wherever the reads end (in particular right after its seventh byte)
+    empty = lambda tx, u: [tx >> 8, tx & 255, 0, 0, 0, 1, u]
+    streams.append(("empty-pdu", [mbap(20, 1, req_read(3, 0, 2)), empty(21, 1), mbap(22, 1, req_wsr(9, 9)), empty(23, 1), empty(24, 2),
+                                  mbap(25, 1, req_read(3, 9, 1))], None))
+    streams.append(("empty-pdu-first", [empty(30, 1), mbap(31, 1, req_read(1, 0, 3))], None))
     # valid frames followed by each malformed header kind, followed by more valid frames (never processed)
     for kind, mk in BAD_HEADERS.items():
         pre = [mbap(10 + i, 1, random_valid_pdu(rng)) for i in range(rng.choice([0, 1, 3, 25]))]
